@@ -11,16 +11,25 @@ def _dispatch(fn):
     top = [s for s in fn.body if isinstance(s, ast.If)]
     if not top:
         raise AnalysisError('dispatch chain of eq not found')
-    chain = if_chain(top[0])
+    full = if_chain(top[0], nodes=True)
     x = fn.params[0]
     types = set()
-    for test, body in chain:
+    last = None
+    for i, (test, body, node) in enumerate(full):
         if test is None:
             continue
         for c in conjuncts(test):
             kind, keys = classify_test(c)
             if kind == 'isinstance:' + x:
                 types |= set(keys)
+                last = i
+    if last is None:
+        raise AnalysisError('eq no longer dispatches on the type of its left operand')
+    # the fallback is everything executed when no test on the type of x holds (guards on y written as further returning ifs belong to it)
+    chain = [(t, b) for t, b, n in full[:last + 1]]
+    fb = else_of(full[last][2])
+    if fb:
+        chain.append((None, fb))
     return chain, types
 
 
@@ -115,7 +124,7 @@ def c14_2(ctx):
             ok = True
         if isinstance(first, ast.If) and N(conjuncts(first.test)[0]) == want:
             # if type(x)==type(y) and ...: ... else: return False
-            if first.orelse and any(isinstance(r, ast.Return) and const(r.value) is False for r in first.orelse) and not body[1:]:
+            if else_of(first) and any(isinstance(r, ast.Return) and const(r.value) is False for r in else_of(first)) and (not first.orelse or not body[1:]):
                 ok = True
         if not ok:
             ctx.fail(fn, first, 'the %s branch does not start by requiring type(%s) == type(%s)' % ('/'.join(sorted(ts)), x, y))
